@@ -19,7 +19,7 @@ ASSUMPTIONS = ["unforgeability of HMAC-SHA256 (Dolev-Yao: symbolic terms)",
 
 
 def nontrivial(c):
-    if c.kind in ("process", "process16", "wiring", "download"):
+    if c.kind in ("process", "process16", "wiring", "download", "exact"):
         return True
     try:
         return bytes.fromhex(c.fields[3] if c.fields[3] != "-" else "").count(b".") == 2
